@@ -268,3 +268,44 @@ pub fn label_family() -> Vec<(String, Vec<Kv>)> {
     }
     v
 }
+
+/// Far-target family: a shared suffix that is found again in the node cache
+/// after `fill` other keys, so that single-transition nodes point far back
+/// (address deltas of 2 and 3 bytes in the single-transition node form).
+pub fn far_family() -> Vec<(String, Vec<Kv>)> {
+    let mut v = vec![];
+    for (name, fill) in [("far-256", 256usize), ("far-2000", 2000), ("far-40000", 40000)] {
+        for valued in [false, true] {
+            let mut kvs: Vec<Kv> = vec![(b"axyz".to_vec(), if valued { 5 } else { 0 })];
+            for i in 0..fill {
+                let k = if fill <= 256 { vec![b'm', i as u8] } else { format!("m{:05}", i).into_bytes() };
+                kvs.push((k, if valued { mix64(i as u64) % 100_000 } else { 0 }));
+            }
+            // the node after "z" has the single transition w -> (the node reached
+            // by "ax"), which was written `fill` keys earlier
+            kvs.push((b"zwyz".to_vec(), if valued { 70_000 } else { 0 }));
+            v.push((format!("{}-{}", name, if valued { "map" } else { "set" }), kvs));
+        }
+    }
+    // 3-byte delta: ~85 KB of filler in only 30 (wide, 8-byte-output) nodes,
+    // so that the shared suffix is still in the node cache
+    for valued in [false, true] {
+        let mut kvs: Vec<Kv> = vec![(b"axyz".to_vec(), if valued { 5 } else { 0 })];
+        for i in 0..30u8 {
+            for b in 0..=255u8 {
+                kvs.push((vec![b'm', i, b], (1u64 << 56) | (mix64((i as u64) * 256 + b as u64) >> 9)));
+            }
+        }
+        kvs.push((b"zwyz".to_vec(), if valued { 70_000 } else { 0 }));
+        v.push((format!("far-wide-{}", if valued { "map" } else { "mixed" }), kvs));
+    }
+    v
+}
+
+/// splitmix64 finaliser: values that do not factor along the key digits.
+pub fn mix64(x: u64) -> u64 {
+    let mut z = x.wrapping_add(0x9E37_79B9_7F4A_7C15);
+    z = (z ^ (z >> 30)).wrapping_mul(0xBF58_476D_1CE4_E5B9);
+    z = (z ^ (z >> 27)).wrapping_mul(0x94D0_49BB_1331_11EB);
+    z ^ (z >> 31)
+}
